@@ -2,6 +2,7 @@ package core
 
 import (
 	"fmt"
+	"sort"
 	"go/types"
 	"strings"
 
@@ -19,6 +20,7 @@ type Memo struct {
 	KeyL      ssa.Value
 	KeyU      ssa.Value
 	Val       ssa.Value
+	ContVal   ssa.Value // the container value of the update (its own dependences select the cache: outer level of a two-level memo)
 }
 
 var keyedContainerTypes = map[string]bool{
@@ -103,6 +105,35 @@ func FindMemos(fn *ssa.Function) []Memo {
 		path     string
 		root     ssa.Value
 		key, val ssa.Value
+		cont     ssa.Value
+	}
+	// a map held in a local variable (e.g. the inner map of a two-level memo, obtained from the outer one or
+	// created on a miss) is identified by the SSA value itself; a map that is freshly made on every path is not a cache
+	localCont := func(v ssa.Value) (string, ssa.Value, bool) {
+		switch x := v.(type) {
+		case *ssa.MakeMap:
+			return "", nil, false
+		case *ssa.Phi:
+			fresh := true
+			for _, e := range x.Edges {
+				if _, isMake := e.(*ssa.MakeMap); !isMake {
+					fresh = false
+				}
+			}
+			if fresh {
+				return "", nil, false
+			}
+		case *ssa.Parameter, *ssa.FreeVar, *ssa.Global:
+			return "", nil, false
+		}
+		if v.Name() == "" {
+			return "", nil, false
+		}
+		name := v.Name()
+		if phi, ok := v.(*ssa.Phi); ok && phi.Comment != "" {
+			name = phi.Comment // the source variable
+		}
+		return "local:" + name, v, true
 	}
 	var lookups, updates []site
 	for _, b := range fn.Blocks {
@@ -113,11 +144,15 @@ func FindMemos(fn *ssa.Function) []Memo {
 					continue
 				}
 				if p, root, ok := ContainerPath(x.X); ok {
-					lookups = append(lookups, site{ins, p, root, x.Index, nil})
+					lookups = append(lookups, site{ins, p, root, x.Index, nil, x.X})
+				} else if p, root, ok := localCont(x.X); ok {
+					lookups = append(lookups, site{ins, p, root, x.Index, nil, x.X})
 				}
 			case *ssa.MapUpdate:
 				if p, root, ok := ContainerPath(x.Map); ok {
-					updates = append(updates, site{ins, p, root, x.Key, x.Value})
+					updates = append(updates, site{ins, p, root, x.Key, x.Value, x.Map})
+				} else if p, root, ok := localCont(x.Map); ok {
+					updates = append(updates, site{ins, p, root, x.Key, x.Value, x.Map})
 				}
 			case *ssa.Call:
 				sc := x.Call.StaticCallee()
@@ -133,10 +168,10 @@ func FindMemos(fn *ssa.Function) []Memo {
 				}
 				switch sc.Name() {
 				case "At", "Load":
-					lookups = append(lookups, site{ins, p, root, x.Call.Args[1], nil})
+					lookups = append(lookups, site{ins, p, root, x.Call.Args[1], nil, x.Call.Args[0]})
 				case "Set", "Store", "LoadOrStore":
 					if len(x.Call.Args) >= 3 {
-						updates = append(updates, site{ins, p, root, x.Call.Args[1], x.Call.Args[2]})
+						updates = append(updates, site{ins, p, root, x.Call.Args[1], x.Call.Args[2], x.Call.Args[0]})
 					}
 				}
 			}
@@ -157,7 +192,7 @@ func FindMemos(fn *ssa.Function) []Memo {
 			if reachesValue(u.val, lv, map[ssa.Value]bool{}) || !flowsToReturn(lv) {
 				continue
 			}
-			res = append(res, Memo{Fn: fn, Lookup: l.ins, Update: u.ins, Container: u.path, Root: u.root, KeyL: l.key, KeyU: u.key, Val: u.val})
+			res = append(res, Memo{Fn: fn, Lookup: l.ins, Update: u.ins, Container: u.path, Root: u.root, KeyL: l.key, KeyU: u.key, Val: u.val, ContVal: u.cont})
 			break
 		}
 	}
@@ -233,12 +268,44 @@ func flowsToReturn(v ssa.Value) bool {
 func MemoKeyGaps(e *DepEngine, m Memo, exempt func(ssa.Value) bool) []string {
 	vd := e.Deps(m.Val)
 	kd := e.Deps(m.KeyU)
+	if m.ContVal != nil {
+		// what selects the container is part of the key (two-level memos)
+		for root := range e.Deps(m.ContVal) {
+			kd[root] = true
+		}
+	}
 	var gaps []string
 	for root := range vd {
 		if kd[root] || root == m.Root || (exempt != nil && exempt(root)) {
 			continue
 		}
 		gaps = append(gaps, fmt.Sprintf("%s (%s)", root.Name(), ShortType(root.Type())))
+	}
+	// field level: the key is built from some fields of a parameter only, the value from other fields (or from the
+	// parameter as a whole)
+	ks, vs := NewReadPaths(e.c, m.KeyU), NewReadPaths(e.c, m.Val)
+	for p, kf := range ks.Fields {
+		if ks.Whole[p] || p == m.Root || (exempt != nil && exempt(p)) {
+			continue
+		}
+		var missing []string
+		for f := range vs.Fields[p] {
+			if !kf[f] {
+				missing = append(missing, f)
+			}
+		}
+		sort.Strings(missing)
+		if vs.Whole[p] {
+			missing = append(missing, "(the value as a whole)")
+		}
+		if len(missing) > 0 {
+			var have []string
+			for f := range kf {
+				have = append(have, f)
+			}
+			sort.Strings(have)
+			gaps = append(gaps, fmt.Sprintf("%s.{%s} while the key only uses %s.{%s}", p.Name(), strings.Join(missing, ","), p.Name(), strings.Join(have, ",")))
+		}
 	}
 	return gaps
 }
